@@ -1463,6 +1463,11 @@ class Exec:
                 if h:
                     return h(self, args, kw, e, env)
                 cc = self.w.classes.get(f.name)
+                if cc is not None and cc.get("ctor_runs_init"):
+                    # the real __init__ of the class is executed on a new object
+                    o = Obj(f.name, {}, fresh="shallow")
+                    self.call_method(o, "__init__", args, kw, line)
+                    return o
                 if cc is not None and ((not args and not kw) or cc.get("ctor_any_args")):
                     from .contracts import eval_spec_expr
                     o = Obj(f.name, {}, fresh="shallow")
@@ -1772,6 +1777,8 @@ class Exec:
         mods = self.contract.get("modifies", [])
         if "*" in mods:
             return
+        if v.origin is not None and v.origin in mods and v.origin.startswith("self."):
+            return          # the object held in a field of self that the contract's frame names
         ok = v.fresh in ("shallow", "deep") or (v.fresh == "node" and not need_lists)
         if not ok and v.fresh == "node" and need_lists:
             cls = self.known_class(v)
@@ -1818,9 +1825,23 @@ class Exec:
         if len(s.items) != 1:
             raise Unsupported("multi-item with")
         mgr = self.ev(s.items[0].context_expr, env)
-        if not (isinstance(mgr, Obj) and mgr.cls in self.w.with_models):
+        if isinstance(mgr, Obj) and mgr.cls not in self.w.with_models and \
+                self.w.has_method(mgr.cls, "__enter__") and self.w.has_method(mgr.cls, "__exit__"):
+            # a context manager of the repository: its real __enter__ / __exit__ run (an exit
+            # that returns a false value does not swallow exceptions; a true one is refused)
+            none = Z(self.P.PNone)
+
+            def enter(ex, m, line):
+                ex.call_method(m, "__enter__", [], {}, line)
+
+            def exit_(ex, m, line):
+                r = ex.call_method(m, "__exit__", [none, none, none], {}, line)
+                ex.oblige("safety", "with:__exit__ returns a false value (exceptions propagate)",
+                          z3.Not(ex.to_bool(r)), line)
+        elif not (isinstance(mgr, Obj) and mgr.cls in self.w.with_models):
             raise Unsupported(f"with over {mgr!r}")
-        enter, exit_ = self.w.with_models[mgr.cls]
+        else:
+            enter, exit_ = self.w.with_models[mgr.cls]
         enter(self, mgr, s.lineno)
         try:
             self.run_block(s.body, env)
